@@ -35,6 +35,7 @@ def run(ctx):
     rule_ab(ctx)
     rule_c(ctx)
     rule_d(ctx)
+    rule_e(ctx)
 
 
 def rule_ab(ctx):
@@ -220,5 +221,67 @@ def rule_d(ctx):
                     t = sl.call_arg(w, 1)
                     if any(l[0] == "param" and l[2] == arg[2] for l in __import__("jjv.lib", fromlist=["term_leaves"]).term_leaves(t)):
                         okw = True
+                # every Ok return passes a successful write_all and a successful persist (no "already there" shortcut:
+                # gc() relies on a rewrite renewing the mtime, and an existing file may be torn)
+                oks, _, _ = ok_exit_nodes(F, b)
+                for what, cs in (("write_all", wr), ("persist_content_addressed_temp_file", ps)):
+                    doms = set()
+                    for c in cs:
+                        doms |= find_ok_nodes(F, b, c)
+                    pth = b.path_avoiding([0], list(oks), doms) if oks else [0]
+                    ctx.ob("C16.d/every-success-wrote-the-object", f"{imp}|{what}", bool(doms) and bool(oks) and pth is None,
+                           f"every Ok return passes a ?-checked {what}" if doms and oks and pth is None else
+                           f"{imp.split('::')[-1]} can return an id without having written the object ({what} skipped): "
+                           f"{b.show_path(pth)[-4:] if pth else ''}")
                 ctx.ob("C16.d/bytes-from-same-value", imp, okw, "serialized bytes derive from the hashed parameter" if okw
                        else "the bytes written do not derive from the value that is hashed")
+
+
+# narrowing adapters: an element of a domain collection that passes through one of these may not reach the proto
+NARROWING = ("re:^std::iter::Iterator::(filter|filter_map|take|skip|take_while|skip_while|step_by|find|find_map|nth|last|"
+             "min|max|min_by|max_by|min_by_key|max_by_key|map_while|scan)$",
+             "re:^itertools::Itertools::(dedup|dedup_by|unique|unique_by|take_while_ref|peeking_take_while|"
+             "filter_ok|filter_map_ok|at_most_one|exactly_one)$",
+             "re:^std::vec::Vec::<.*>::(retain|truncate|dedup|dedup_by|dedup_by_key|pop|drain|split_off)$",
+             "re:^std::collections::\\w+::<.*>::(retain|pop_first|pop_last)$")
+NARROWING_OK = {
+    ("view_from_proto", "filter_map"):
+        "one-time migration: selects refs/tags/* out of git_refs into remote tags; git_refs itself is kept whole",
+    ("adds", "step_by"): "Merge<T> interleaved storage: even positions",
+    ("removes", "step_by"): "Merge<T> interleaved storage: odd positions",
+}
+
+
+def rule_e(ctx):
+    """codec functions carry every element: no narrowing iterator adapter between a domain collection and the proto
+    (or back), except the tabled ones."""
+    F = ctx.F
+    writers = impls_of(F, OS + "OpStore::write_view", crates=("jj_lib",)) + impls_of(F, OS + "OpStore::write_operation", crates=("jj_lib",))
+    readers = impls_of(F, OS + "OpStore::read_view", crates=("jj_lib",)) + impls_of(F, OS + "OpStore::read_operation", crates=("jj_lib",))
+    seen_ok = set()
+    nb = 0
+    for kind, roots in (("writer", writers), ("reader", readers)):
+        _, bodies = cone_bodies(F, roots)
+        for b in bodies:
+            codec = b.root.startswith("jj_lib::simple_op_store::") or \
+                (kind == "writer" and b.root.startswith("jj_lib::merge::Merge::<T>::") and b.root.split("::")[-1] in ("adds", "removes"))
+            if not codec:
+                continue
+            nb += 1
+            for c in b.calls:
+                if c.cleanup:
+                    continue
+                n = c.decl or c.res or ""
+                if not name_matches(n, NARROWING) and not name_matches(c.res or "", NARROWING):
+                    continue
+                key = (b.root.split("::")[-1], n.split("::")[-1])
+                if key in NARROWING_OK:
+                    seen_ok.add(key)
+                    ctx.ob("C16.e/codec-carries-every-element", f"{kind}|{key[0]}|{key[1]}", True, "tabled: " + NARROWING_OK[key])
+                else:
+                    ctx.ob("C16.e/codec-carries-every-element", f"{kind}|{key[0]}|{key[1]}", False,
+                           f"{b.root} narrows a collection with {n.split('::')[-1]}() on the way "
+                           f"{'into' if kind == 'writer' else 'out of'} the stored form: elements it drops are not "
+                           f"{'stored' if kind == 'writer' else 'restored'}", where=c.where())
+    ctx.anchor("C16.e", "codec bodies in simple_op_store scanned", nb, 30)
+    ctx.anchor("C16.e", "tabled narrowing adapters still present (positive control)", seen_ok, 3)
